@@ -51,6 +51,13 @@ fn main() {
     if want("f8d") { run("f8d", &format!("\n<t to=\"{old}\">\nx\n</t>\nbar\n"), "<", ">", &[]); }
     if want("f8b") { run("f8b", &format!("<t to=\"{old}\" unwrap-block>\nif a {{\n    body\n}}\n</t>\nend\n"), "<", ">", &[]); }
     if want("f8c") { run("f8c", &format!("z\n<t to=\"{old}\" unwrap-block>\nif a {{\n    body\n}}\n</t>\nend\n"), "<", ">", &[]); }
+    // C11: exactly two lines between the tags (the two wrapper lines, no inner line) must be unwrapped
+    if want("f12") { run("f12", &format!("a\n<t to=\"{old}\" unwrap-block>\nif x {{\n}}\n</t>\nb\n"), "<", ">", &[]); }
+    if want("f12b") { run("f12b", &format!("a\n<t to=\"{old}\" unwrap-block>\nif x {{\n  y\n}}\n</t>\nb\n"), "<", ">", &[]); }
+    if want("f12c") { run("f12c", &format!("a\n<t to=\"{old}\" unwrap-block>\nonly\n</t>\nb\n"), "<", ">", &[]); }
+    // C13: an indented tag on the first line of the file leaves its indentation behind
+    if want("f13") { run("f13", &format!("  <t to=\"{old}\">\na\n  </t>\nrest\n"), "<", ">", &[]); }
+    if want("f13b") { run("f13b", &format!("x\n  <t to=\"{old}\">\na\n  </t>\nrest\n"), "<", ">", &[]); }
     if want("f9") { run("f9", "<m name=\"p\">\n1\n</m>\n<m name=\"q\">\n2\n</m>\n<m name=\"f\">\n3\n</m>\n", "<", ">", &["f"]); }
     if want("f11") { run("f11", &format!("x\n<t to=\"{old}\" unwrap-block>\nif a {{ <m name=\"f\">1</m> <m name=\"f\">2</m> <m name=\"f\">3</m>\n    <t to=\"{old}\" unwrap-block>\n    if b {{\n        body1\n    }}\n    </t>\n    after\n}}\n</t>\nend\n"), "<", ">", &["f"]); }
 }
